@@ -153,3 +153,35 @@ class FrameTap:
     def take(self):
         out, self.frames = self.frames, []
         return out
+
+
+TORCH_LAYOUTS = ("plain", "offset", "strided", "batchrow", "negoffset")
+_TORCH_TICK = [0]
+
+
+def torch_layout(x, dtype=None, kind=None):
+    """The same samples as a torch tensor in another memory layout: a fresh tensor, a view into a larger buffer (storage
+    offset 7), every other element of a buffer, a row of a batch, the tail of a buffer.  `kind=None` cycles."""
+    import torch
+    t = torch.tensor(x) if dtype is None else torch.tensor(x, dtype=dtype)
+    if kind is None:
+        _TORCH_TICK[0] += 1
+        kind = TORCH_LAYOUTS[_TORCH_TICK[0] % len(TORCH_LAYOUTS)]
+    n = t.shape[0] if t.dim() else 0
+    if kind == "plain" or t.dim() != 1:
+        return t
+    if kind == "offset":
+        big = torch.full((n + 7,), 123.0, dtype=t.dtype)
+        big[7:] = t
+        return big[7:]
+    if kind == "strided":
+        big = torch.full((2 * n,), -55.0, dtype=t.dtype)
+        big[::2] = t
+        return big[::2]
+    if kind == "batchrow":
+        batch = torch.full((3, n), 9.0, dtype=t.dtype)
+        batch[1] = t
+        return batch[1]
+    big = torch.full((n + 11,), 77.0, dtype=t.dtype)
+    big[11:] = t
+    return big[11:]
